@@ -107,7 +107,7 @@ ConstExpanded(st, tie) ==
 (* ---- drift clauses: the circuit really read against the reader model (information, never a violation) ---- *)
 NoTieNames(S) == \A x \in S : ~HasPrefix(x, "tie")
 ProgNets(p) == Range(p.inputs) \cup Range(p.outputs) \cup DrivenNets(p)
-ModelApplies(p) == SimpleProgram(p) /\ NoTieNames(ProgNets(p))
+ModelApplies(p) == SimpleProgram(p) /\ NoTieNames(ProgNets(p) \cup FreeNets(p))       \* (nets driven by blackbox outputs included)
                    /\ Cardinality(DrivenNets(p)) = Cardinality({j \in 1..Len(p.items) : p.items[j].k \in {"gate", "assign"}})   \* one driver per net
 DriftParse(e) ==
   IF "dialect" \in DOMAIN e /\ e.dialect = "verilog" /\ ~e.expect_reject /\ e.exc = "" /\ WellFormedRec(e.r) /\ e.r.n <= 16
